@@ -59,6 +59,21 @@ class Pipe:
             tests = tests[:limit]
         return tests, stats
 
+    def population_sequences(self, depth=3, bound=0):
+        """Every sequence of <= depth accessibles, each appended by the real factory (``append`` op): the
+        call-sequence enumeration for small stateful APIs (neutral choices for arguments, <= bound deviations)."""
+        import itertools
+
+        n = len(self.world.accessibles)
+        out = {}
+        for k in range(1, depth + 1):
+            for idx in itertools.product(range(n), repeat=k):
+                found, _ = tcenum.enumerate_testcases(self.world, [("append", i) for i in idx], bound)
+                for t, _c in found.values():
+                    out.setdefault(t.to_code(), t)
+        tests = sorted(out.values(), key=lambda t: (t.size(), t.to_code()))
+        return tests
+
     # ------------------------------------------------------------------ chromosomes
     def coverage_functions(self):
         import pynguin.ga.computations as ff
